@@ -1,4 +1,4 @@
-CONSTANTS MaxN = 4  MaxK = 3
+CONSTANTS MaxN = 5  MaxK = 3
 SPECIFICATION Spec
 INVARIANT TypeOK
 INVARIANT ModelSatisfiesProperty
